@@ -295,7 +295,8 @@ def check(tier, seed):
         return None
 
     return R.finish(RULE, search=search,
-                    partial_note="database-level model tied by correspondence; tree-level theorems in Properties/C12.v")
+                    partial_note="tree-level theorems and the database-level write refinement (C12_D_history) are proved; the root_node setter and the "
+                                 "byte-level API are tied by correspondence")
 
 
 def replay(payload):
